@@ -542,6 +542,51 @@ mod known_f25_portable_images_depend_on_history {
     }
 }
 
+/// Finding 28 (C02, C04, C11, C18): `as_bytes()` of an unsized #[flat] struct was `LAST_FIELD_OFFSET + tail bytes`, not rounded up to the
+/// struct's alignment (the struct-level twin of finding 20): shorter than size()/size_of_val, its own bytes re-map to a smaller capacity.
+#[cfg(test)]
+mod f28_struct_own_bytes {
+    use super::common::*;
+    #[flat(sized = false, default = true)]
+    struct Msg { id: u32, items: FlatVec<[u8; 3], u8> }
+    #[test]
+    fn own_bytes_cover_the_value_and_validate_again() {
+        let mut b = AlignedBytes::new(12, 4);
+        b.iter_mut().for_each(|x| *x = 0);
+        let m = Msg::default_in_place(&mut b).unwrap();
+        assert_eq!(m.items.capacity(), 2);
+        m.items.push([10, 11, 12]).unwrap();
+        m.items.push([20, 21, 22]).unwrap();
+        assert_eq!(m.size(), 12);
+        assert_eq!(m.as_bytes().len(), 12, "as_bytes() shorter than the value");
+        let own = aligned(m.as_bytes(), 4);
+        let again = Msg::from_bytes(&own).expect("own bytes do not validate");
+        assert_eq!(again.items.capacity(), 2);
+    }
+}
+
+/// Finding 29 (C02, C05, C10, C12): FlexVec validation accepted a sealed item whose extent is not a multiple of the vector's alignment
+/// (possible when the offset type is less aligned than the items): the terminator then sits at an unaligned position, size() counts a
+/// full slot for it and exceeds the bytes; a receiver panics in Buffer::skip when the guard is dropped.
+#[cfg(test)]
+mod f29_flex_unaligned_extent {
+    use super::common::*;
+    #[test]
+    fn unaligned_sealed_extent_is_refused() {
+        // item 0 declares extent 9: the zero terminator would sit at offset 9
+        let mem = aligned(&[9, 0, 0, 0, 0x78, 0x56, 0x34, 0x12, 0xaa, 0, 0, 0], 4);
+        match FlexVec::<u32, u8>::from_bytes(&mem) {
+            Ok(v) => panic!("accepted; size() = {} of {} bytes", v.size(), mem.len()),
+            Err(e) => assert_eq!(e.kind, ErrorKind::InvalidData),
+        }
+        // aligned extents still work
+        let mem = aligned(&[8, 0, 0, 0, 0x78, 0x56, 0x34, 0x12, 0, 0, 0, 0], 4);
+        let v = FlexVec::<u32, u8>::from_bytes(&mem).unwrap();
+        assert_eq!(v.len(), 1);
+        assert!(v.size() <= mem.len());
+    }
+}
+
 /// Finding 20 (C02, C05, C11): as_bytes() of a FlatVec whose element size is not a multiple of the vector's alignment
 /// is shorter than the value (not rounded to ALIGN): the value's own bytes do not re-map to the same capacity / do not validate.
 #[cfg(test)]
